@@ -33,13 +33,13 @@ def gen_cases(out, explore):
                    dict(id=nid + 1, par=None, job=901, name=9, ty=1, st=t0 + extent - 1, en=t0 + extent, app=1)]
         nid += 2
         for t in range(ntr):
-            kind = rnd.choice(["in", "in", "dangling", "names", "before", "after", "straddle", "touch_lo", "touch_hi", "edge_out"])
+            kind = rnd.choice(["in", "in", "dangling", "names", "dangling_names", "before", "after", "straddle", "touch_lo", "touch_hi", "edge_out"])
             n = rnd.choice([1, 2, 3, 5])
             tr = S.gen_trace(rnd, job=1 + t, name=1 + rnd.randrange(3), first_id=nid, n=n,
-                             dangling=(kind == "dangling"), names_inconsistent=(kind == "names"))
+                             dangling=(kind in ("dangling", "dangling_names")), names_inconsistent=(kind in ("names", "dangling_names")))
             nid += n
             for e in tr:
-                if kind in ("in", "dangling", "names"):
+                if kind in ("in", "dangling", "names", "dangling_names"):
                     e["st"] = rnd.randrange(t0, t0 + extent)
                     e["en"] = min(t0 + extent, e["st"] + rnd.randrange(0, MIN))
                 elif kind == "before":
